@@ -42,8 +42,7 @@ fn two_byte_shape(d: &([u8; 3], usize)) -> bool {
     n == 2 && ((b[0] < 0x80 && b[1] < 0x80) || (b[0] >= 0xC2 && b[0] <= 0xDF && b[1] >= 0x80 && b[1] <= 0xBF))
 }
 
-// killed by: `if self.comment_end.len() != 2` -> `< 2` (a 3-byte comment_end is accepted) ;
-//            the check `self.block_start == self.comment_start` deleted
+// killed by: `if self.comment_end.len() != 2` -> `< 2` (a 3-byte comment_end is accepted)
 #[kani::proof]
 #[kani::unwind(5)]
 fn validate_accepts_exactly() {
